@@ -199,7 +199,7 @@ func (s *State) heapGet(name, sort string) string {
 	}
 	c := s.eng.declare(name+"@0", sort)
 	s.heap[name] = c
-	s.eng.typingAxiom(c, name)
+	s.eng.typingAxiom(c, name, s.eng.declare("alloc@0", sInt))
 	return c
 }
 
@@ -236,7 +236,7 @@ func (s *State) noteWrite(name string, ref ...string) {
 func (s *State) heapHavoc(name, sort string) {
 	c := s.eng.fresh(name+"@h", sort)
 	s.heap[name] = c
-	s.eng.typingAxiom(c, name)
+	s.eng.typingAxiom(c, name, s.allocPtr())
 	s.eng.hvCtr++
 	s.hv = s.eng.hvCtr
 	s.noteWrite(name)
@@ -505,16 +505,34 @@ func refsOf(v Val) []string {
 
 // typingAxiom records that every cell of a heap array version holds a value of its leaf type
 // (well-typed heap). The axiom is emitted with every obligation that mentions the symbol.
-func (e *Engine) typingAxiom(sym, name string) {
-	t, ok := e.leafTypes[name]
-	if !ok || t == nil {
+func (e *Engine) typingAxiom(sym, name, allocBound string) {
+	if _, done := e.symAxioms[sym]; done {
+		return
+	}
+	t := e.leafTypes[name]
+	isRef := strings.HasSuffix(name, "^ref") || strings.HasSuffix(name, "^dat")
+	if t != nil {
+		switch under(t).(type) {
+		case *types.Pointer, *types.Map, *types.Chan:
+			isRef = true
+		}
+	}
+	if isRef {
+		// well-formed heap: every reference stored in (this version of) the heap existed when the
+		// version was created, i.e. lies below the allocation pointer of that moment
+		switch {
+		case strings.HasPrefix(name, "M$"):
+			e.symAxioms[sym] = []string{sf("(forall ((r!t Int) (i!t Int)) (! (and (<= 0 (select (select %s r!t) i!t)) (< (select (select %s r!t) i!t) %s)) :pattern ((select (select %s r!t) i!t))))", sym, sym, allocBound, sym)}
+		case strings.HasPrefix(name, "H$"):
+			e.symAxioms[sym] = []string{sf("(forall ((r!t Int)) (! (and (<= 0 (select %s r!t)) (< (select %s r!t) %s)) :pattern ((select %s r!t))))", sym, sym, allocBound, sym)}
+		}
+		return
+	}
+	if t == nil {
 		return
 	}
 	lo, hi, isInt := intRange(t)
 	if !isInt {
-		return
-	}
-	if _, done := e.symAxioms[sym]; done {
 		return
 	}
 	switch {
